@@ -16,7 +16,34 @@ lltd_global_info_t globalInfo;
 
 static int hexval(int c) { if (c >= '0' && c <= '9') return c - '0'; if (c >= 'a' && c <= 'f') return c - 'a' + 10; if (c >= 'A' && c <= 'F') return c - 'A' + 10; return 0; }
 
+/* --sweep: every 32-bit LinkSpeed through lltd_port_get_link_speed_100bps, every 32-bit MediumType and every 32-bit
+ * flags word through lltd_port_get_characteristics_flags, every 32-bit MTU / ifType through their getters; prints the
+ * first few values on which a getter distorts the record and the number of such values. */
+static int sweep(unsigned chunk, unsigned nchunks) {
+    network_interface_t ni; memset(&ni, 0, sizeof ni); ni.deviceName = "verif0"; ni.socket = -1;
+    unsigned long long bad = 0; int shown = 0;
+    uint64_t lo = (0x100000000ull / nchunks) * chunk, hi = (chunk + 1 == nchunks) ? 0x100000000ull : (0x100000000ull / nchunks) * (chunk + 1);
+    for (uint64_t v = lo; v < hi; v++) {
+        uint32_t x = (uint32_t)v, o = 0; size_t m = 0;
+        ni.LinkSpeed = x; ni.MediumType = x; ni.flags = 0; ni.MTU = x; ni.ifType = x;
+        int r = lltd_port_get_link_speed_100bps(&ni, &o);
+        if (r != 0 || o != x / 100u) { bad++; if (shown++ < 5) printf("BAD speed LinkSpeed=%u -> rc=%d value=%u, must be %u\n", x, r, o, x / 100u); }
+        uint32_t f = lltd_port_get_characteristics_flags(&ni), want = (x & 0x10u) ? 0x2000u : 0u;
+        if (f != want) { bad++; if (shown++ < 5) printf("BAD flags MediumType=%u flags=0 -> %u, must be %u\n", x, f, want); }
+        ni.MediumType = 0; ni.flags = x;
+        f = lltd_port_get_characteristics_flags(&ni); want = (x & 0x8u) ? 0x800u : 0u;
+        if (f != want) { bad++; if (shown++ < 5) printf("BAD flags MediumType=0 flags=%u -> %u, must be %u\n", x, f, want); }
+        r = lltd_port_get_mtu(&ni, &m);
+        if (r != 0 || m != (size_t)x) { bad++; if (shown++ < 5) printf("BAD mtu MTU=%u -> rc=%d value=%zu\n", x, r, m); }
+        r = lltd_port_get_if_type(&ni, &o);
+        if (r != 0 || o != x) { bad++; if (shown++ < 5) printf("BAD iftype ifType=%u -> rc=%d value=%u\n", x, r, o); }
+    }
+    printf("sweep: values %llu..%llu x 5 getters, %llu distorted\n", (unsigned long long)lo, (unsigned long long)hi - 1, bad);
+    return bad ? 1 : 0;
+}
+
 int main(int argc, char **argv) {
+    if (argc >= 2 && !strcmp(argv[1], "--sweep")) return sweep(argc > 2 ? (unsigned)atoi(argv[2]) : 0, argc > 3 ? (unsigned)atoi(argv[3]) : 1);
     if (argc < 2) return 2;
     FILE *f = fopen(argv[1], "r");
     if (!f) return 2;
